@@ -297,7 +297,7 @@ def _source(v, p, it, dcs, queues, CFS):
         for t, val, b in q.atoms(p):
             if isinstance(t, tuple) and t[0] == "attr" and t[2] in CFS and val is False:
                 return "no cancel function"
-            if isinstance(t, tuple) and t[0] == "comp" and val is False and t[4]:
+            if val is False and isinstance(t, tuple) and any(isinstance(x, tuple) and x and x[0] == "comp" and x[4] for x in subterms(t)):
                 return "not in the polling stage"
         return None
     # (c) the cancel function's own answer
